@@ -8,9 +8,12 @@ Decided (E6 eigen typestate on tensor/sptensor/ktensor/ttensor.nvecs, both solve
              `v[pivot_i, i] < 0`, and the flip negates column i
   EIG-unf    in ttensor.nvecs all mode-n unfoldings (dense to_tenmat(cdims=[n]) and sparse to_sptenmat([n], 't')) list the
              remaining modes in the same (ascending) order, so that their product is the mode-n Gram matrix
+  EIG-gram   homogeneity degree (E9): the matrix handed to the eigen-solver is homogeneous of degree 2 in the operand's own
+             values (data / vals / Kruskal weights / Tucker core), as X_n X_n^T is; degree 1 means the weights / core enter once
+             (an MTTKRP-like product, not symmetric), degree 0 that they are dropped
   EIG-sib    the four implementations choose the iterative branch under the same condition
              (r < size - 1) — sibling agreement
-Not decided: that the Gram matrix is the mode-n Gram matrix; subspace equality across
+Not decided: that the degree-2 matrix is exactly the mode-n Gram matrix (which modes are contracted); subspace equality across
 representations; numerical orthonormality (follows from the eigh/eigsh contract when EIG-ret holds).
 """
 from __future__ import annotations
@@ -209,6 +212,33 @@ def unfold_conventions(prog: Program, res: Result) -> None:
                 " — the product of differently ordered unfoldings is not the mode-n Gram matrix (visible for a middle mode of a tensor with >= 3 modes)")
 
 
+def gram_degree(prog: Program, res: Result) -> None:
+    from fractions import Fraction
+    from .. import degree as D
+    for cls, field in (("tensor", "data"), ("sptensor", "vals"), ("ktensor", "weights"), ("ttensor", "core")):
+        meths = {fi.name: fi.node for q, fi in prog.functions.items() if fi.cls == cls and not fi.parent and fi.module == "pyttb." + cls}
+        fi = prog.func(f"{cls}.{cls}.nvecs")
+        dg = D.DegreeOf(meths, field)
+        _, seen = dg.run(meths["nvecs"], watch=("eigh", "eigsh", "eig", "eigs", "svd"))
+        solvers = {id(c): c for c in ast.walk(fi.node) if isinstance(c, ast.Call) and (dotted(c.func) or "").split(".")[-1] in ("eigh", "eigsh", "eig", "eigs", "svd")}
+        if not seen:
+            res.undecided("EIG-gram", fi.short, f"the solver input is quadratic in self.{field}", prog.loc(fi), "no solver call reached")
+        for cid, d in seen.items():
+            c = solvers.get(cid)
+            solver = (dotted(c.func) or "").split(".")[-1] if c is not None else "?"
+            want = Fraction(1) if solver == "svd" else Fraction(2)
+            desc = f"the matrix handed to {solver} is homogeneous of degree {want} in self.{field}"
+            where = prog.loc(fi, c) if c is not None else prog.loc(fi)
+            if d == want:
+                res.ok("EIG-gram", fi.short, desc, where)
+            elif d is None:
+                res.undecided("EIG-gram", fi.short, desc, where, "an expression outside the degree table")
+            else:
+                res.bad("EIG-gram", fi.short, desc, where,
+                        f"`{ast.unparse(c.args[0])[:40] if c is not None else ''}` has degree {D.fmt(d)} in self.{field}: it is not X_n X_n^T "
+                        "(which is quadratic in the tensor's values), so its eigenvectors are not those of the mode-n Gram matrix")
+
+
 def check(prog: Program, res: Result, tier: str) -> None:
     res.explanation = __doc__.split("\n\n", 1)[1]
     res.assumptions = [
@@ -216,8 +246,9 @@ def check(prog: Program, res: Result, tier: str) -> None:
         "eigsh unspecified order, k vectors); eig/eigs are general solvers with complex results",
         "eigsh(which='LM', default) selects largest-magnitude eigenvalues",
     ]
-    res.floors = {"EIG-ret": 8, "EIG-sign": 4, "EIG-sib": 4, "EIG-unf": 1}
+    res.floors = {"EIG-ret": 8, "EIG-sign": 4, "EIG-sib": 4, "EIG-unf": 1, "EIG-gram": 6}
     unfold_conventions(prog, res)
+    gram_degree(prog, res)
     for short in NVECS:
         eig_ret(prog, res, short)
         sign_rule(prog, res, short)
